@@ -91,11 +91,25 @@ pub fn eval(c: &Components, f: &Factors, k: f32, area: f32, lm: bool) -> Out<Ene
 /// carriers, services, sources and system ids are iterated in another order.
 pub fn fresh_thread<T: Send>(f: impl FnOnce() -> T + Send) -> T {
     std::thread::scope(|s| {
-        std::thread::Builder::new()
-            .stack_size(16 << 20)
-            .spawn_scoped(s, f)
-            .expect("spawn")
-            .join()
-            .expect("fresh thread must not panic (library calls are guarded)")
+        // thread creation can fail transiently on a loaded machine: retry instead of failing the harness
+        let slot = std::sync::Arc::new(std::sync::Mutex::new(Some(f)));
+        let mut tries = 0u64;
+        loop {
+            let sl = slot.clone();
+            let res = std::thread::Builder::new().stack_size(16 << 20).spawn_scoped(s, move || {
+                let g = sl.lock().unwrap().take().expect("closure available");
+                g()
+            });
+            match res {
+                Ok(h) => return h.join().expect("fresh thread must not panic (library calls are guarded)"),
+                Err(e) => {
+                    tries += 1;
+                    if tries > 50 {
+                        panic!("cannot spawn thread: {e}");
+                    }
+                    std::thread::sleep(std::time::Duration::from_millis(20 * tries));
+                }
+            }
+        }
     })
 }
